@@ -1,5 +1,7 @@
 import ShellOp.Proofs.Conversion
 import ShellOp.Proofs.ConversionOverlap
+import ShellOp.Model.ConversionGlue
+import ShellOp.Model.BindingContext
 /-!
 # C15 — conversion: a valid rule chain is found iff one exists, applied step by step
 
@@ -1292,5 +1294,253 @@ theorem two_groups_witness :
       [R "g.io/v1" "v2", R "v2" "v3"] = false := by decide
 
 end Examples
+
+/-! ## Sixth wave: the glue around the search and the handler loop (`Model/ConversionGlue.lean`) -/
+section GlueProps
+open ShellOp.Conversion.Glue
+
+theorem put_mem (s : Storage) (crd : String) (r x : Rule) (c : String) :
+    x ∈ s.put crd r c ↔ x ∈ s c ∨ (c = crd ∧ x = r) := by
+  unfold Storage.put
+  by_cases hc : c = crd
+  · subst hc
+    rw [if_pos rfl]
+    by_cases hr : r ∈ s c
+    · rw [if_pos hr]
+      constructor
+      · intro h; exact Or.inl h
+      · intro h
+        rcases h with h | ⟨_, h⟩
+        · exact h
+        · rw [h]; exact hr
+    · rw [if_neg hr]
+      simp
+  · rw [if_neg hc]
+    simp [hc]
+
+theorem fileBinding_mem (b : Binding) (s : Storage) (x : Rule) (c : String) :
+    x ∈ fileBinding s b c ↔ x ∈ s c ∨ (c = b.crd ∧ x ∈ b.rules) := by
+  unfold fileBinding
+  generalize b.rules = rs
+  induction rs generalizing s with
+  | nil => simp
+  | cons r rs ih =>
+    simp only [List.foldl_cons, List.mem_cons]
+    rw [ih, put_mem]
+    constructor
+    · intro h
+      rcases h with (h | ⟨h1, h2⟩) | ⟨h1, h2⟩
+      · exact Or.inl h
+      · exact Or.inr ⟨h1, Or.inl h2⟩
+      · exact Or.inr ⟨h1, Or.inr h2⟩
+    · intro h
+      rcases h with h | ⟨h1, h2 | h2⟩
+      · exact Or.inl (Or.inl h)
+      · exact Or.inl (Or.inr ⟨h1, h2⟩)
+      · exact Or.inr ⟨h1, h2⟩
+
+theorem fileHook_mem (h : List Binding) (s : Storage) (x : Rule) (c : String) :
+    x ∈ fileHook s h c ↔ x ∈ s c ∨ ∃ b, b ∈ h ∧ b.crd = c ∧ x ∈ b.rules := by
+  unfold fileHook
+  induction h generalizing s with
+  | nil => simp
+  | cons b bs ih =>
+    simp only [List.foldl_cons]
+    rw [ih, fileBinding_mem]
+    constructor
+    · intro h
+      rcases h with (h | ⟨h1, h2⟩) | ⟨b', hb, h1, h2⟩
+      · exact Or.inl h
+      · exact Or.inr ⟨b, List.mem_cons_self, h1.symm, h2⟩
+      · exact Or.inr ⟨b', List.mem_cons_of_mem _ hb, h1, h2⟩
+    · intro h
+      rcases h with h | ⟨b', hb, h1, h2⟩
+      · exact Or.inl (Or.inl h)
+      · rcases List.mem_cons.mp hb with hb | hb
+        · subst hb; exact Or.inl (Or.inr ⟨h1.symm, h2⟩)
+        · exact Or.inr ⟨b', hb, h1, h2⟩
+
+theorem foldHooks_mem (hooks : List (List Binding)) (s : Storage) (x : Rule) (c : String) :
+    x ∈ hooks.foldl fileHook s c ↔ x ∈ s c ∨ ∃ h, h ∈ hooks ∧ ∃ b, b ∈ h ∧ b.crd = c ∧ x ∈ b.rules := by
+  induction hooks generalizing s with
+  | nil => simp
+  | cons h hs ih =>
+    simp only [List.foldl_cons]
+    rw [ih, fileHook_mem]
+    constructor
+    · intro g
+      rcases g with (g | g) | ⟨h', hh, g⟩
+      · exact Or.inl g
+      · exact Or.inr ⟨h, List.mem_cons_self, g⟩
+      · exact Or.inr ⟨h', List.mem_cons_of_mem _ hh, g⟩
+    · intro g
+      rcases g with g | ⟨h', hh, g⟩
+      · exact Or.inl (Or.inl g)
+      · rcases List.mem_cons.mp hh with hh | hh
+        · subst hh; exact Or.inl (Or.inr g)
+        · exact Or.inr ⟨h', hh, g⟩
+
+/-- **The rules of a CRD are the rules its own bindings declare**: after `UpdateConversionChains`, for
+every set of hooks with any number of conversion bindings for any CRDs in any order, a rule is filed
+under CRD `c` iff some binding of some hook with `crdName: c` declares it. (The searches, the handler
+and all the theorems above are about "the declared rules" of one CRD: this is that list.) -/
+theorem updateChains_mem (hooks : List (List Binding)) (x : Rule) (c : String) :
+    x ∈ updateChains hooks c ↔ ∃ h, h ∈ hooks ∧ ∃ b, b ∈ h ∧ b.crd = c ∧ x ∈ b.rules := by
+  unfold updateChains
+  rw [foldHooks_mem]
+  simp
+
+/-- a chain over the filed rules of a CRD uses only rules declared for that CRD -/
+theorem updateChains_path_declared (hooks : List (List Binding)) (c : String) (p : Path)
+    (hp : ∀ r, r ∈ p → r ∈ updateChains hooks c) :
+    ∀ r, r ∈ p → ∃ h, h ∈ hooks ∧ ∃ b, b ∈ h ∧ b.crd = c ∧ r ∈ b.rules :=
+  fun r hr => (updateChains_mem hooks r c).mp (hp r hr)
+
+/-- **When a step has succeeded**: the handler sees converted objects of a run iff the hook process ended
+well AND its object patches were applied AND its metrics were accepted AND its response carries no
+`failedMessage`. A run the operator fails after the hook wrote its response has not succeeded. -/
+theorem stepOut_ok_iff (r : RawRun) (out : List Obj) :
+    (stepOut r).okOut = some out ↔
+      r.exitOk = true ∧ r.patchOk = true ∧ r.metricsOk = true ∧ r.resp = some ("", out) := by
+  rcases r with ⟨e, p, m, resp⟩
+  cases e <;> cases p <;> cases m <;>
+    simp [stepOut, stepOutWith, handleRunHook, HookOut.okOut]
+  cases resp with
+  | none => simp
+  | some mo =>
+    rcases mo with ⟨msg, o⟩
+    by_cases hm : msg = ""
+    · simp [hm]
+    · simp [hm]
+
+/-- a run whose patches or metrics are refused is a failed run (`Hook failed to convert …`), whatever
+the hook wrote into its response file -/
+theorem stepOut_late_failure (r : RawRun) (h : r.patchOk = false ∨ r.metricsOk = false) :
+    stepOut r = .exitFail := by
+  rcases r with ⟨e, p, m, resp⟩
+  cases e <;> cases p <;> cases m <;> simp_all [stepOut, stepOutWith, handleRunHook]
+
+/-- nothing runs after a run that did not succeed, and a `Success` comes after successful runs only:
+if `pipeCheck` holds and the last run succeeded, every run succeeded. -/
+theorem pipe_all_ok (script : Script) (inv : List Invocation) :
+    ∀ (i : Nat) (cur out : List Obj), pipeCheck script i cur inv = none →
+      (lastOutcome script i inv).bind HookOut.okOut = some out →
+      ∀ (k : Nat) (t : Invocation), inv[k]? = some t → ((script (i + k) t.rule t.input).okOut).isSome = true := by
+  induction inv with
+  | nil => intro i cur out _ _ k t hk; simp at hk
+  | cons t ts ih =>
+    intro i cur out hp hl k u hk
+    unfold pipeCheck at hp
+    by_cases hin : t.input ≠ cur
+    · simp [hin] at hp
+    · simp only [hin, if_false] at hp
+      cases hok : (script i t.rule t.input).okOut with
+      | some o =>
+        rw [hok] at hp
+        cases k with
+        | zero =>
+          simp at hk; subst hk; simp [hok]
+        | succ k =>
+          cases ts with
+          | nil => simp at hk
+          | cons t2 ts2 =>
+            have hl' : (lastOutcome script (i + 1) (t2 :: ts2)).bind HookOut.okOut = some out := by
+              simpa [lastOutcome] using hl
+            have := ih (i + 1) o out hp hl' k u (by simpa using hk)
+            simpa [Nat.add_assoc, Nat.add_comm 1 k] using this
+      | none =>
+        rw [hok] at hp
+        cases ts with
+        | nil =>
+          simp [lastOutcome, hok] at hl
+        | cons t2 ts2 => simp at hp
+
+/-- **Success only if every step succeeded**, for the model of the handler: for every script, order,
+history (scope of `apply_chain`), a `Success` answer means that every hook run that was made succeeded
+(with `stepOut_ok_iff`: its process, its object patches, its metrics and its response). -/
+theorem success_every_run_succeeded (ord : Order) (links : Rule → Bool) (script : Script) (rules history : List Rule)
+    (desired a : Ver) (objs : List Obj) (hv : extractVersions objs = [a])
+    (hU : Coherent (a :: desired :: versionsOf rules)) (robjs : List Obj)
+    (hs : (convert ord links script (afterQueries ord (Chain.ofRules rules) history) desired objs).1 = .success robjs) :
+    ∀ (k : Nat) (t : Invocation),
+      (convert ord links script (afterQueries ord (Chain.ofRules rules) history) desired objs).2[k]? = some t →
+      ((script k t.rule t.input).okOut).isSome = true := by
+  have h := apply_chain ord links script rules history desired a objs hv hU
+  rw [hs] at h
+  generalize (convert ord links script (afterQueries ord (Chain.ofRules rules) history) desired objs).2 = inv at h
+  unfold applyCheck at h
+  simp only at h
+  split at h
+  · simp at h
+  · split at h
+    · simp at h
+    · split at h
+      · simp at h
+      · rename_i hp
+        split at h
+        · simp at h
+        · rename_i o hl
+          split at h
+          · simp at h
+          · rename_i out ho
+            intro k t hk
+            have := pipe_all_ok script inv 0 objs out hp (by simp [hl, ho]) k t hk
+            simpa using this
+/-- **The conversion context is a conversion context whatever else the binding sets** (`MapV1`,
+`Model/BindingContext.lean`): `group`, `includeSnapshotsFrom` … do not take `fromVersion`, `toVersion`
+and the `review` (the request objects = the previous output) away from the hook. -/
+theorem conversion_context_carries_review (c : BindingContext.Ctx) (h : c.btype = .conversion) :
+    BindingContext.typePart c =
+      [("type", .str "Conversion"), ("fromVersion", .str c.fromVersion), ("toVersion", .str c.toVersion),
+       ("review", .str c.review)] := by
+  simp [BindingContext.typePart, h]
+
+theorem conversion_mapV1_review (c : BindingContext.Ctx) (h : c.btype = .conversion) :
+    ("review", Json.J.str c.review) ∈ BindingContext.mapV1 c := by
+  simp [BindingContext.mapV1, h, conversion_context_carries_review c h]
+
+end GlueProps
+
+namespace GlueExamples
+open ShellOp.Conversion.Glue
+def V (s : String) : Ver := s.toList
+def R (a b : String) : Rule := ⟨V a, V b⟩
+
+/-- one hook, bindings for two CRDs -/
+def twoCrds : List (List Binding) :=
+  [[⟨"widgets", [R "v1" "v2"]⟩, ⟨"gadgets", [R "v1" "v2", R "v2" "v3"]⟩]]
+
+example : updateChains twoCrds "gadgets" = [R "v1" "v2", R "v2" "v3"] ∧
+    updateChains twoCrds "widgets" = [R "v1" "v2"] := by decide
+
+/-- fetched once per hook, the rules of the second CRD land under the first: `gadgets` has no rules
+(v1→v3 not served although declared), `widgets` gets a rule nobody declared for it -/
+theorem first_crd_witness :
+    updateChainsFirstCrd twoCrds "gadgets" = [] ∧
+    R "v2" "v3" ∈ updateChainsFirstCrd twoCrds "widgets" ∧
+    ¬ R "v2" "v3" ∈ updateChains twoCrds "widgets" := by decide
+
+/-- the response was written, then the metrics of the run were refused: the code sees a failed run;
+with the prop stored first and failures allowed the handler would see converted objects -/
+theorem late_failure_witness :
+    let r : RawRun := ⟨true, true, false, some ("", [⟨1, V "g.io/v2"⟩])⟩
+    stepOut r = .exitFail ∧
+    stepOutWith handleRunHookPropFirst true r = .resp "" [⟨1, V "g.io/v2"⟩] ∧
+    stepOutWith handleRunHookPropFirst false r = .exitFail ∧
+    stepOutWith handleRunHook true r = .noResponse := by decide
+
+example : (stepOut ⟨true, true, true, some ("", [⟨1, V "g.io/v2"⟩])⟩).okOut = some [⟨1, V "g.io/v2"⟩] := by decide
+
+example : reviewCheck ["uid-1", "none"] = some "a-hook-run-found-no-review-in-its-binding-context" ∧
+    reviewCheck ["uid-1", "uid-1"] = none := by decide
+
+/-- a conversion binding with a group: the context still carries the review -/
+def groupedCtx : BindingContext.Ctx :=
+  { btype := .conversion, binding := "conv", group := "main", review := "uid-7", fromVersion := "v1", toVersion := "v2" }
+
+example : BindingContext.typePart groupedCtx =
+    [("type", .str "Conversion"), ("fromVersion", .str "v1"), ("toVersion", .str "v2"), ("review", .str "uid-7")] := by
+  decide
+end GlueExamples
 
 end ShellOp.Conversion.C15
